@@ -490,7 +490,8 @@ func runC18(c *lib.Ctx) {
 	config := r.sweepConfig()
 	recov := r.sweepRecover()
 	oflisp := r.sweepOfLisp()
-	nSweep := len(text) + len(native) + len(ops) + len(simple) + len(multi) + len(scan) + len(config) + len(recov) + len(oflisp)
+	twice := r.sweepTwice()
+	nSweep := len(text) + len(native) + len(ops) + len(simple) + len(multi) + len(scan) + len(config) + len(recov) + len(oflisp) + len(twice)
 	nCfgSweep := len(config)
 	for i := 0; i < c.Scale(1500, 120000); i++ {
 		config = append(config, r.randomConfigCase())
@@ -528,6 +529,9 @@ func runC18(c *lib.Ctx) {
 	for i := 0; i < c.Scale(800, 100000); i++ {
 		oflisp = append(oflisp, &c18Case{Family: "oflisp", GoVal: lw(r.randomLisp(3)), Via: r.g.r.Intn(4)})
 	}
+	for i := 0; i < c.Scale(600, 60000); i++ {
+		twice = append(twice, r.randomTwiceCase())
+	}
 	marker := func(name string) *c18Case { return &c18Case{Family: "config", Cell: "after-" + name, Sweep: true} }
 	r.runRecover(recov[:len(recov)/2])
 	chunk(0)
@@ -549,6 +553,7 @@ func runC18(c *lib.Ctx) {
 	r.runSimplify(simple)
 	r.checkPristine(marker("simplify"), "after-simplify")
 	r.runOfLisp(oflisp)
+	r.runTwice(twice)
 	r.runRecover(recov[len(recov)/2:])
 	c.Ev.Coverage["parser_healed_outside_recover_family"] = r.impl.healed
 	_ = nCfgSweep
@@ -561,7 +566,7 @@ func runC18(c *lib.Ctx) {
 	c.Ev.Coverage["traces_validated_against_impl"] = r.total
 	c.Ev.Coverage["agreements"] = r.agree
 	c.Ev.Coverage["sweep_cases"] = nSweep
-	c.Ev.Coverage["composite_cases"] = len(text) + len(native) + len(ops) + len(simple) + len(multi) + len(scan) + len(config) + len(recov) + len(oflisp) - nSweep
+	c.Ev.Coverage["composite_cases"] = len(text) + len(native) + len(ops) + len(simple) + len(multi) + len(scan) + len(config) + len(recov) + len(oflisp) + len(twice) - nSweep
 	avoided := []string{}
 	if r.g.avoid.bigInt {
 		avoided = append(avoided, "integers ojg holds as json.Number")
@@ -702,6 +707,8 @@ func (r *c18Run) replay() {
 		r.runRecover([]*c18Case{cs})
 	case "oflisp":
 		r.runOfLisp([]*c18Case{cs})
+	case "twice":
+		r.runTwice([]*c18Case{cs})
 	}
 	fmt.Printf("replay family=%s recorded signature: %s\n", cs.Family, rec.Signature)
 	for _, v := range r.c.Violations {
